@@ -466,6 +466,11 @@ func knownJSON(mode string, flags []string, data []byte, r jsonRef, w want) stri
 	if windowed(mode) && r.p+1 > 12288 && knownClass("C17/cr-window") && hasLoneCR(data[:min(r.p, len(data))]) {
 		return "C17/cr-window"
 	}
+	if piped(mode) && !r.eof && data[r.p] >= 0xC0 && r.p+utf8.UTFMax > 512 && knownClass("C17/pipe-partial-char") {
+		// the decoder stops at the first byte of a multi-byte character; the
+		// rest of it is in the window only if it arrived with the same read
+		return "C17/pipe-partial-char"
+	}
 	if knownClass("C17/tab-column") && bytes.IndexByte(w.Text[:w.Pos], '\t') >= 0 {
 		return "C17/tab-column"
 	}
